@@ -136,13 +136,7 @@ fn any_line_state() -> ([u64; W], usize) {
     (words, n)
 }
 fn line_bv(words: &[u64; W], n: usize) -> BitVector {
-    let mut dl = crate::bitvector::DataLine::default();
-    let mut k = 0;
-    while k < 8 {
-        dl.words[k] = words[k];
-        k += 1;
-    }
-    BitVector { data: vec![dl].into_boxed_slice(), n_bits: n, n_ones: 0 }
+    mk_imm_line(words, n)
 }
 /// occurrences of BIT among bits [from, to) of the first line
 fn count_range8<const BIT: bool>(words: &[u64; W], from: usize, to: usize) -> usize {
@@ -168,7 +162,7 @@ fn count_range8<const BIT: bool>(words: &[u64; W], from: usize, to: usize) -> us
 }
 
 macro_rules! select_stage {
-    ($name:ident, $bit:expr, $s0:expr, $l:expr) => {
+    ($name:ident, $bit:expr, $s0:expr, $aligned:expr) => {
         #[kani::proof]
         #[kani::unwind(10)]
         #[kani::stub(crate::utils::select_in_word, crate::utils::verif_utils_stubs::select_in_word_contract)]
@@ -189,48 +183,68 @@ macro_rules! select_stage {
             };
             let da = DArray::<$s0> { bv, ones_inventories: Inventories::default(), zeroes_inventories: None };
             let i: usize = kani::any();
-            let r = da.select::<$bit>(i, &inv);
-            if i >= n_sets {
-                assert!(r.is_none());
-                kani::cover!(i == usize::MAX, "largest k");
-            } else {
-                let bp = blocks[i / 1024];
-                if bp < 0 {
-                    // layout of a sparse group: LEN explicit positions starting at -bp-1
-                    let idx = (-bp - 1) as usize + (i % 1024);
-                    kani::assume(idx < 4);
-                    assert!(r == Some(ovf[idx]));
-                    kani::cover!(i >= 1024, "sparse second group");
-                } else {
-                    // layout of a dense group: p0 is the position of occurrence 32*(i/32) (bit holds there),
-                    // and the group has at least i%32 further occurrences after it inside the vector
-                    let p0 = bp as usize + subs[i / 32] as usize;
-                    kani::assume(p0 < n && bit(&words, p0) == $bit);
-                    let rem = i % 32;
-                    kani::assume(count_range8::<$bit>(&words, p0, n) > rem);
-                    let p = r.unwrap();
-                    assert!(p >= p0 && p < n);
-                    assert!(bit(&words, p) == $bit);
-                    assert!(count_range8::<$bit>(&words, p0, p) == rem);
-                    kani::cover!(rem > 0 && (p >> 6) > (p0 >> 6) + 1, "scan crosses more than one word");
-                    kani::cover!(rem == 0, "sub-block head");
-                    kani::cover!(p0 % 64 == 63 && rem > 0, "head on the last bit of a word");
-                    kani::cover!(i >= 1024, "dense second group");
+            // layout preconditions of the entries this query touches - stated BEFORE the call
+            let valid = i < n_sets;
+            let bp = if valid { blocks[i / 1024] } else { 0 };
+            let sparse = valid && bp < 0;
+            let dense = valid && bp >= 0;
+            let mut idx = 0usize;
+            let mut p0 = 0usize;
+            let rem = i % 32;
+            if sparse {
+                // a sparse group: -bp-1 is the offset of its LEN explicit positions
+                kani::assume(bp > i64::MIN);
+                idx = (-bp - 1) as usize + (i % 1024);
+                kani::assume(idx < 4);
+            }
+            if dense {
+                // a dense group: p0 is the position of occurrence 32*(i/32) (the bit holds there), and the
+                // vector holds at least i%32 further occurrences after it
+                p0 = bp as usize + subs[i / 32] as usize;
+                kani::assume(p0 < n && bit(&words, p0) == $bit);
+                if $aligned {
+                    kani::assume(p0 % 64 == 0);
                 }
+                kani::assume(count_range8::<$bit>(&words, p0, n) > rem);
+            }
+            let r = da.select::<$bit>(i, &inv);
+            kani::cover!(i == usize::MAX, "largest k");
+            kani::cover!(sparse && i >= 1024, "sparse second group");
+            kani::cover!(dense && i >= 1024, "dense second group");
+            kani::cover!(dense && rem == 0, "sub-block head");
+            kani::cover!($aligned || (dense && rem > 0 && p0 % 64 == 63), "head on the last bit of a word");
+            if !valid {
+                assert!(r.is_none());
+            } else if sparse {
+                assert!(r == Some(ovf[idx]));
+            } else {
+                let p = r.unwrap();
+                assert!(p >= p0 && p < n);
+                assert!(bit(&words, p) == $bit);
+                assert!(count_range8::<$bit>(&words, p0, p) == rem);
+                kani::cover!(rem > 0 && (p >> 6) > (p0 >> 6) + 1, "scan crosses more than one word");
             }
             core::mem::forget(da);
             core::mem::forget(inv);
         }
     };
 }
-// @h props=C07,C04:t,C10 tier=quick family=S mem=6 timeout=2400 stubs=utils::select_in_word->contract(c17_select_in_word_law) role=darray.select1.stage
-// @bound select on a 1..=512-bit vector with symbolic contents and assembled inventories of two groups (each dense or sparse) whose touched entries satisfy the layout law; every k of the machine range
+// @h props=C07,C04:t,C10:t tier=thorough family=S mem=6 timeout=3600 stubs=utils::select_in_word->contract(c17_select_in_word_law) role=darray.select1.stage.aligned
+// @bound select on a 1..=512-bit vector with symbolic contents and assembled inventories of two groups (each dense or sparse) whose touched entries satisfy the layout law; sub-block heads restricted to word-aligned positions (the unrestricted instance needs 1100-1300 s: thorough); every k of the machine range
 // @funcs DArray::select, BitVector::get_word
-select_stage!(c07_select1_stage, true, false, 1);
-// @h props=C07,C04:t,C10 tier=quick family=S mem=6 timeout=2400 stubs=utils::select_in_word->contract(c17_select_in_word_law) role=darray.select0.stage
-// @bound same for zeros (negated words, padding after the last bit never reported)
+select_stage!(c07_select1_stage_aligned, true, false, true);
+// @h props=C07,C04:t,C10:t tier=thorough family=S optional=yes mem=6 timeout=3600 stubs=utils::select_in_word->contract(c17_select_in_word_law) role=darray.select0.stage.aligned
+// @bound same for zeros (negated words, padding after the last bit never reported), word-aligned sub-block heads
 // @funcs DArray::select, BitVector::get_word
-select_stage!(c07_select0_stage, false, true, 1);
+select_stage!(c07_select0_stage_aligned, false, true, true);
+// @h props=C07,C10:t tier=thorough family=S optional=yes mem=8 timeout=3600 stubs=utils::select_in_word->contract(c17_select_in_word_law) role=darray.select1.stage
+// @bound select1 stage with the sub-block head at any position (1100-1300 s)
+// @funcs DArray::select, BitVector::get_word
+select_stage!(c07_select1_stage, true, false, false);
+// @h props=C07,C10:t tier=thorough family=S optional=yes mem=8 timeout=3600 stubs=utils::select_in_word->contract(c17_select_in_word_law) role=darray.select0.stage
+// @bound select0 stage with the sub-block head at any position (did not finish in 1500 s)
+// @funcs DArray::select, BitVector::get_word
+select_stage!(c07_select0_stage, false, true, false);
 
 // ---------------------------------------------------------------------------------------------- (N)
 
@@ -300,7 +314,7 @@ macro_rules! darray_concrete {
         }
     };
 }
-// @h props=C07,C04,C19:t tier=quick family=T mem=5 timeout=1800 stubs=utils::select_in_word->contract role=darray.concrete12
+// @h props=C07:t,C04:t,C19:t tier=thorough family=T optional=yes mem=28 timeout=3600 stubs=utils::select_in_word->contract role=darray.concrete12
 // @bound DArray<true> collected from 11 positions derived from the repo's own test (0..=190), bit vector assembled, DArray::new real, k and get index symbolic over the machine range: select1, select0, get, len, counts
 // @funcs DArray::new, Inventories::new, Inventories::flush_block, DArray::select1, DArray::select0, DArray::get, BitVector::from_iter, BitVector::ones, BitVector::zeros
 darray_concrete!(c07_concrete12_s0, true, [0, 12, 33, 42, 55, 61, 62, 63, 128, 129, 190], 11, 191, 200);
@@ -332,4 +346,37 @@ fn c07_false_twin() {
     let mut o: Vec<usize> = Vec::new();
     Inventories::<true>::flush_block(&pos, &mut b, &mut s, &mut o);
     assert!(b[0] >= 0);
+}
+
+// ------------------------------------------------------------------------------------------ C18
+
+// @h props=C18:t,C07:t tier=thorough family=T optional=yes mem=28 timeout=1800 stubs=utils::select_in_word->contract role=purity.darray
+// @bound DArray<true> over 11 concrete positions: select1/select0/get with one symbolic index, interleaved and repeated: same answers, value equal to its snapshot afterwards
+// @funcs DArray::select1, DArray::select0, DArray::get, DArray::eq, DArray::clone
+#[kani::proof]
+#[kani::unwind(200)]
+#[kani::stub(crate::utils::select_in_word, crate::utils::verif_utils_stubs::select_in_word_contract)]
+fn c18_purity_darray() {
+    let pos: [usize; 11] = [0, 12, 33, 42, 55, 61, 62, 63, 128, 129, 190];
+    let mut words = [0u64; W];
+    let mut t = 0;
+    while t < 11 {
+        words[pos[t] >> 6] |= 1u64 << (pos[t] & 63);
+        t += 1;
+    }
+    let da: DArray<true> = DArray::new(mk_imm::<1>(&words, 191));
+    let snap = da.clone();
+    let k: usize = kani::any();
+    let a1 = da.select1(k);
+    let b1 = da.select0(k);
+    let c1 = da.get(k);
+    // the same queries again, in another order
+    let b2 = da.select0(k);
+    let a2 = da.select1(k);
+    let b3 = da.select0(k);
+    assert!(a1 == a2 && b1 == b2 && b2 == b3 && da.get(k) == c1);
+    assert!(da == snap);
+    kani::cover!(a1.is_some() && b1.is_some(), "both answer");
+    core::mem::forget(da);
+    core::mem::forget(snap);
 }
